@@ -734,28 +734,6 @@ theorem isEqKeyL_prec : ∀ ps : List Spec, isEqKeyL ps = true → precedenceL p
       simp [precedenceL, isEqKey_prec p h.1, isEqKeyL_prec ps h.2]
 end
 
-/- spec trees in which every plain dict key that `_precedence` ranks 0 is an equality key -/
-mutual
-def keysOK : Spec → Bool
-  | .and cs _ | .or cs _ | .list cs | .set cs | .fset cs | .tuple cs => keysOKL cs
-  | .not c | .matchS c _ => keysOK c
-  | .switch cases _ => keysOKC cases
-  | .dict es => keysOKD es
-  | _ => true
-def keysOKL : List Spec → Bool
-  | [] => true
-  | s :: ss => keysOK s && keysOKL ss
-def keysOKC : List (Spec × Spec) → Bool
-  | [] => true
-  | (k, v) :: r => keysOK k && keysOK v && keysOKC r
-def keysOKD : List (KeyKind × Spec × Spec) → Bool
-  | [] => true
-  | (kind, k, v) :: r =>
-    (match kind with
-     | .plain => precedence k != 0 || isEqKey k
-     | _ => true) && keysOK k && keysOK v && keysOKD r
-end
-
 theorem required_eq (es : List (KeyKind × Spec × Spec)) (i : Nat) (h : keysOKD es = true) :
     requiredIdx es i = requiredRef es i := by
   induction es generalizing i with
